@@ -194,6 +194,10 @@ impl<const N: u32> PxE2<{ N }> {
                         k_z += 1;
                         exp_z &= 0x3;
                     }
+                    // the bit shifted out by the carry is sticky
+                    if (frac64_z & 1) != 0 {
+                        bits_more = true;
+                    }
                     frac64_z = (frac64_z >> 1) & 0x7FFF_FFFF_FFFF_FFFF;
                 } else {
                     //for subtract cases
